@@ -171,6 +171,20 @@ class Unsupported(Exception):
     """construct outside the verified Python/NumPy subset -> the function is reported as unverified, never skipped"""
 
 
+PROVER = {'decide': None}     # set by the executor: decide(cond) -> True / False / None under the current path condition
+
+
+def same_index(a, b):
+    c = z3.simplify(zi(a) == zi(b))
+    if z3.is_true(c):
+        return True
+    if z3.is_false(c):
+        return False
+    if PROVER['decide'] is not None:
+        return PROVER['decide'](c)
+    return None
+
+
 class SList:
     """Python list.  `fn` maps an index term (already normalised to [0, len)) to the element."""
 
@@ -196,10 +210,10 @@ class SList:
     def get(self, idx):
         """idx: normalised index (python int or Int term)"""
         for (ti, tv) in list(getattr(self, 'transients', {}).values()):
-            same = z3.simplify(zi(idx) == ti)
-            if z3.is_true(same):
+            same = same_index(idx, ti)
+            if same is True:
                 return tv
-            if not z3.is_false(same):
+            if same is None:
                 raise Unsupported('read of a list slot that may hold a transient array of another rank')
         if self.items is not None:
             c = as_conc(idx)
@@ -246,10 +260,10 @@ class SList:
             val = garbage if not self.kind.startswith('optarr') else SOpt(fresh('gdef', 'bool'), garbage)
         else:
             for k2, (ti, _) in list(tr.items()):
-                same = z3.simplify(zi(idx) == ti)
-                if z3.is_true(same):
+                same = same_index(idx, ti)
+                if same is True:
                     del tr[k2]
-                elif not z3.is_false(same):
+                elif same is None:
                     raise Unsupported('list slot written while another slot may hold a transient array')
         c = as_conc(idx)
         if self.items is not None and c is not None:
